@@ -1,0 +1,19 @@
+//go:build verif
+
+// Package verifhook provides named yield/gate points for the verification
+// harness in /verif. With the build tag "verif" a harness may install Hook to
+// observe or delay the calling goroutine at a point; without the tag Point is
+// an empty function that the compiler inlines away.
+package verifhook
+
+// Hook is called by Point with the point's name when it is not nil. It must
+// be installed before the code under test starts running and not changed
+// while it runs.
+var Hook func(name string)
+
+// Point marks a place where the harness may perturb or gate the schedule.
+func Point(name string) {
+	if Hook != nil {
+		Hook(name)
+	}
+}
